@@ -57,6 +57,7 @@ def trace_cfg(path, consts, invariants, strict):
              "  MaxCreatePend = 100000", "  MaxTicks = 100000", "  MaxStops = 100000", "  Timeout = %d" % consts["Timeout"],
              "  Strict = %s" % ("TRUE" if strict else "FALSE")]
     lines += ["  %s = FALSE" % v for v in VARS]
+    lines += ["  MaxPerPoll = 0", "  Rewake = FALSE"]
     lines += ["SPECIFICATION TSpec"]
     if invariants and not strict:
         lines += ["INVARIANTS " + " ".join(invariants)]
